@@ -1,9 +1,737 @@
-// Package c10: check for property C10 (stub until implemented).
+// Package c10: every honestly generated zero-knowledge proof verifies, also after encoding (ENUM).
+//
+// Enumerated space: proof system x witness alphabet x vendored parameter sets (ordered pairs where two
+// sides are involved) x curves (Schnorr, Schnorr-V) x session strings {empty, 1 byte, 32 bytes, 1 kB}.
+// Oracle (a transcription of the property): the library's prover, given a true statement and valid
+// parameters, must produce a proof that the library's verifier accepts under the same session; the proof
+// must survive serialisation to its wire parts and parsing back with every component reproduced, and the
+// parsed proof must be accepted again.
 package c10
 
-import "verif/internal/core"
+import (
+	"crypto/elliptic"
+	"fmt"
+	"math/big"
+	"runtime"
+	"sync/atomic"
+
+	"github.com/bnb-chain/tss-lib/v2/crypto"
+	cmt "github.com/bnb-chain/tss-lib/v2/crypto/commitments"
+	"github.com/bnb-chain/tss-lib/v2/crypto/dlnproof"
+	"github.com/bnb-chain/tss-lib/v2/crypto/facproof"
+	"github.com/bnb-chain/tss-lib/v2/crypto/modproof"
+	"github.com/bnb-chain/tss-lib/v2/crypto/mta"
+	"github.com/bnb-chain/tss-lib/v2/crypto/paillier"
+	"github.com/bnb-chain/tss-lib/v2/crypto/schnorr"
+	eckeygen "github.com/bnb-chain/tss-lib/v2/ecdsa/keygen"
+	ecsigning "github.com/bnb-chain/tss-lib/v2/ecdsa/signing"
+	edkeygen "github.com/bnb-chain/tss-lib/v2/eddsa/keygen"
+	"github.com/bnb-chain/tss-lib/v2/tss"
+
+	"verif/internal/core"
+)
 
 // Implemented reports whether this check is built.
-const Implemented = false
+const Implemented = true
 
-func Run(r *core.Run) { r.Cap("not implemented") }
+type kase struct {
+	sys   string
+	canon string // canonical description: distinct string = distinct case
+	class string // value class used in violation keys (no parameter-set numbers)
+	rec   map[string]interface{}
+	run   func(k *kase) (stage string, detail string) // "" = pass
+}
+
+type runner struct {
+	r     *core.Run
+	cases []*kase
+	evals int64
+}
+
+func (c *runner) add(k *kase) { c.cases = append(c.cases, k) }
+
+func hx(v *big.Int) string {
+	if v == nil {
+		return "nil"
+	}
+	return v.Text(16)
+}
+
+func (c *runner) exec(k *kase) {
+	atomic.AddInt64(&c.evals, 1)
+	c.r.Distinct("cases", k.canon)
+	c.r.Count("cases_"+k.sys, 1)
+	var stage, detail string
+	pan, hung := Guard(func() { stage, detail = k.run(k) })
+	k.rec["case"] = k.canon
+	switch {
+	case hung:
+		c.r.Violate(k.sys+"/honest/"+k.class+":hang", "prover/verifier/parser did not return within 240 s on an honest case", k.rec)
+	case pan != nil:
+		k.rec["panic"] = fmt.Sprint(pan)
+		c.r.Violate(k.sys+"/honest/"+k.class+":panic", "panic on an honest case: "+fmt.Sprint(pan), k.rec)
+	case stage != "":
+		k.rec["detail"] = detail
+		c.r.Violate(k.sys+"/"+stage+"/"+k.class, "honest proof: "+stage+" "+detail, k.rec)
+		c.r.Distinct("outcomes", k.sys+"/"+stage)
+	default:
+		c.r.Distinct("outcomes", k.sys+"/accepted+roundtrip")
+		c.r.Sample(8, k.rec)
+	}
+}
+
+// sameInts compares two flat component lists.
+func sameInts(names []string, a, b []*big.Int) (string, string) {
+	if len(a) != len(b) {
+		return "roundtrip-arity", fmt.Sprintf("%d vs %d parts", len(a), len(b))
+	}
+	for i := range a {
+		if a[i] == nil || b[i] == nil || a[i].Cmp(b[i]) != 0 {
+			n := fmt.Sprint(i)
+			if i < len(names) {
+				n = names[i]
+			}
+			return "roundtrip-component", n
+		}
+	}
+	return "", ""
+}
+
+func (c *runner) noteShort(sys string, parts [][]byte, nominal []int) {
+	for i, p := range parts {
+		if i < len(nominal) && len(p) < nominal[i] {
+			c.r.Count("short_encodings_"+sys, 1)
+		}
+	}
+}
+
+func fromID() *tss.PartyID {
+	id := tss.NewPartyID("1", "P1", big.NewInt(1))
+	id.Index = 0
+	return id
+}
+
+// wireRoundTrip marshals a message to wire bytes and parses it back.
+func wireRoundTrip(msg tss.ParsedMessage) (tss.MessageContent, error) {
+	bz, _, err := msg.WireBytes()
+	if err != nil {
+		return nil, err
+	}
+	pm, err := tss.ParseWireMessage(bz, msg.GetFrom(), msg.IsBroadcast())
+	if err != nil {
+		return nil, err
+	}
+	return pm.Content(), nil
+}
+
+// ---------------------------------------------------------------- Schnorr
+
+func (c *runner) schnorrCase(ec elliptic.Curve, sess NamedBytes, x NamedInt, label, extra string) {
+	cn := CurveName(ec)
+	k := &kase{sys: "schnorr", class: "x=" + x.Name + extra + "/sess=" + sess.Name + "@" + cn,
+		canon: fmt.Sprintf("schnorr|%s|x=%s%s|sess=%s|%s", cn, x.Name, extra, sess.Name, label),
+		rec:   map[string]interface{}{"curve": cn, "x": hx(x.V), "session_hex": fmt.Sprintf("%x", trunc(sess.B)), "session_len": len(sess.B), "drbg": label}}
+	k.run = func(k *kase) (string, string) {
+		pf, X, err := BuildSchnorr(ec, sess.B, x.V, label)
+		if err != nil {
+			return "prove-error", err.Error()
+		}
+		k.rec["alphaX"], k.rec["alphaY"], k.rec["t"] = hx(pf.Alpha.X()), hx(pf.Alpha.Y()), hx(pf.T)
+		if !pf.Verify(sess.B, X) {
+			return "verify-rejected", ""
+		}
+		// the three wire parts as the message constructors produce them
+		parts := [][]byte{pf.Alpha.X().Bytes(), pf.Alpha.Y().Bytes(), pf.T.Bytes()}
+		c.noteShort("schnorr", parts, []int{32, 32, 32})
+		pf2, err := SchnorrParse(ec, parts)
+		if err != nil {
+			return "reparse-error", err.Error()
+		}
+		if s, d := sameInts(SchnorrNames, SchnorrFlat(pf), SchnorrFlat(pf2)); s != "" {
+			return s, d
+		}
+		if !pf2.Verify(sess.B, X) {
+			return "reverify-rejected", ""
+		}
+		// through the real message types and the protobuf wire format
+		var pf3 *schnorr.ZKProof
+		if cn == string(tss.Ed25519) {
+			msg := edkeygen.NewKGRound2Message2(fromID(), cmt.HashDeCommitment{big1, big2}, pf)
+			ct, err := wireRoundTrip(msg)
+			if err != nil {
+				return "wire-error", err.Error()
+			}
+			m, ok := ct.(*edkeygen.KGRound2Message2)
+			if !ok {
+				return "wire-error", "content type"
+			}
+			if !m.ValidateBasic() {
+				return "message-refused", "KGRound2Message2.ValidateBasic"
+			}
+			pf3, err = m.UnmarshalZKProof(ec)
+			if err != nil {
+				return "reparse-error", err.Error()
+			}
+		} else {
+			msg := ecsigning.NewSignRound4Message(fromID(), cmt.HashDeCommitment{big1, big2, big2}, pf)
+			ct, err := wireRoundTrip(msg)
+			if err != nil {
+				return "wire-error", err.Error()
+			}
+			m, ok := ct.(*ecsigning.SignRound4Message)
+			if !ok {
+				return "wire-error", "content type"
+			}
+			if !m.ValidateBasic() {
+				return "message-refused", "SignRound4Message.ValidateBasic"
+			}
+			pf3, err = m.UnmarshalZKProof(ec)
+			if err != nil {
+				return "reparse-error", err.Error()
+			}
+		}
+		if s, d := sameInts(SchnorrNames, SchnorrFlat(pf), SchnorrFlat(pf3)); s != "" {
+			return s, d + " (message)"
+		}
+		if !pf3.Verify(sess.B, X) {
+			return "reverify-rejected", "(message)"
+		}
+		return "", ""
+	}
+	c.add(k)
+}
+
+func trunc(b []byte) []byte {
+	if len(b) > 40 {
+		return b[:40]
+	}
+	return b
+}
+
+// findShort searches labels 0.. for the first honest Schnorr proof whose part `which` has a leading zero byte.
+func findShort(ec elliptic.Curve, x *big.Int, which int, max int) (string, bool) {
+	for n := 0; n < max; n++ {
+		label := fmt.Sprintf("c10/schnorr/short/%d/%d", which, n)
+		pf, _, err := BuildSchnorr(ec, []byte("s"), x, label)
+		if err != nil {
+			return "", false
+		}
+		if len(SchnorrFlat(pf)[which].Bytes()) < 32 {
+			return label, true
+		}
+	}
+	return "", false
+}
+
+func (c *runner) schnorrAll() {
+	for _, ec := range []elliptic.Curve{tss.S256(), tss.Edwards()} {
+		cn := CurveName(ec)
+		q := ec.Params().N
+		alpha := ScalarAlphabet(q, cn == string(tss.Ed25519)) // 0*G is representable on the Edwards curve only
+		for _, sess := range Sessions() {
+			for _, x := range alpha {
+				c.schnorrCase(ec, sess, x, "c10/schnorr/"+cn+"/"+x.Name+"/"+sess.Name, "")
+			}
+		}
+		// leading-zero encodings of each wire part (the session does not matter for the search: the nonce fixes alpha,
+		// and T is searched under the session actually used)
+		g1 := NamedInt{"g1", Generic("scalar/g1", q)}
+		for which, nm := range SchnorrNames {
+			label, ok := findShort(ec, g1.V, which, 20000)
+			if !ok {
+				c.r.Assume("no short " + nm + " encoding found within 20000 labels on " + cn)
+				continue
+			}
+			c.schnorrCase(ec, NamedBytes{"s", []byte("s")}, g1, label, "/short-"+nm)
+		}
+	}
+}
+
+// ---------------------------------------------------------------- Schnorr-V
+
+func (c *runner) schnorrVAll() {
+	for _, ec := range []elliptic.Curve{tss.S256(), tss.Edwards()} {
+		ec := ec
+		cn := CurveName(ec)
+		q := ec.Params().N
+		alpha := ScalarAlphabet(q, true)
+		R := MulG(ec, Generic("schnorrv/r", q))
+		for _, sess := range Sessions() {
+			sess := sess
+			for _, s := range alpha {
+				for _, l := range alpha {
+					s, l := s, l
+					if s.V.Sign() == 0 && l.V.Sign() == 0 {
+						continue // V would be the identity
+					}
+					if new(big.Int).Mod(new(big.Int).Add(new(big.Int).Mul(s.V, Generic("schnorrv/r", q)), l.V), q).Sign() == 0 {
+						continue
+					}
+					label := "c10/schnorrv/" + cn + "/" + s.Name + "/" + l.Name + "/" + sess.Name
+					k := &kase{sys: "schnorrv", class: "s=" + s.Name + "/l=" + l.Name + "/sess=" + sess.Name + "@" + cn,
+						canon: fmt.Sprintf("schnorrv|%s|s=%s|l=%s|sess=%s", cn, s.Name, l.Name, sess.Name),
+						rec:   map[string]interface{}{"curve": cn, "s": hx(s.V), "l": hx(l.V), "session_len": len(sess.B), "drbg": label}}
+					k.run = func(k *kase) (string, string) {
+						pf, V, err := BuildSchnorrV(ec, sess.B, R, s.V, l.V, label)
+						if err != nil {
+							return "prove-error", err.Error()
+						}
+						if !pf.Verify(sess.B, V, R) {
+							return "verify-rejected", ""
+						}
+						parts := [][]byte{pf.Alpha.X().Bytes(), pf.Alpha.Y().Bytes(), pf.T.Bytes(), pf.U.Bytes()}
+						c.noteShort("schnorrv", parts, []int{32, 32, 32, 32})
+						pf2, err := SchnorrVParse(ec, parts)
+						if err != nil {
+							return "reparse-error", err.Error()
+						}
+						if s, d := sameInts(SchnorrVNames, SchnorrVFlat(pf), SchnorrVFlat(pf2)); s != "" {
+							return s, d
+						}
+						if !pf2.Verify(sess.B, V, R) {
+							return "reverify-rejected", ""
+						}
+						// message path (SignRound6Message carries a ZKProof and a ZKVProof)
+						zk, _, err := BuildSchnorr(ec, sess.B, big2, label+"/zk")
+						if err != nil {
+							return "prove-error", err.Error()
+						}
+						msg := ecsigning.NewSignRound6Message(fromID(), cmt.HashDeCommitment{big1, big2, big2, big2, big2}, zk, pf)
+						ct, err := wireRoundTrip(msg)
+						if err != nil {
+							return "wire-error", err.Error()
+						}
+						m, ok := ct.(*ecsigning.SignRound6Message)
+						if !ok {
+							return "wire-error", "content type"
+						}
+						if !m.ValidateBasic() {
+							return "message-refused", "SignRound6Message.ValidateBasic"
+						}
+						pf3, err := m.UnmarshalZKVProof(ec)
+						if err != nil {
+							return "reparse-error", err.Error()
+						}
+						if s, d := sameInts(SchnorrVNames, SchnorrVFlat(pf), SchnorrVFlat(pf3)); s != "" {
+							return s, d + " (message)"
+						}
+						if !pf3.Verify(sess.B, V, R) {
+							return "reverify-rejected", "(message)"
+						}
+						return "", ""
+					}
+					c.add(k)
+				}
+			}
+		}
+	}
+}
+
+// ---------------------------------------------------------------- dln
+
+func (c *runner) dlnCase(p Params, h1, h2, x *big.Int, dirName, xName string) {
+	label := fmt.Sprintf("c10/dln/%d/%s/%s", p.Idx, dirName, xName)
+	k := &kase{sys: "dln", class: dirName + "/x=" + xName,
+		canon: fmt.Sprintf("dln|set=%d|%s|x=%s", p.Idx, dirName, xName),
+		rec:   map[string]interface{}{"set": p.Idx, "direction": dirName, "x": hx(x), "drbg": label}}
+	k.run = func(k *kase) (string, string) {
+		pf := BuildDLN(p, h1, h2, x, label)
+		if !pf.Verify(h1, h2, p.NTilde) {
+			return "verify-rejected", ""
+		}
+		bzs, err := pf.Serialize()
+		if err != nil {
+			return "serialize-error", err.Error()
+		}
+		nominal := make([]int, len(bzs))
+		for i := range nominal {
+			nominal[i] = 256
+		}
+		nominal[0], nominal[1+dlnproof.Iterations] = 1, 1
+		c.noteShort("dln", bzs, nominal)
+		pf2, err := dlnproof.UnmarshalDLNProof(bzs)
+		if err != nil {
+			return "reparse-error", err.Error()
+		}
+		if s, d := sameInts(DLNNames(), DLNFlat(pf), DLNFlat(pf2)); s != "" {
+			return s, d
+		}
+		if !pf2.Verify(h1, h2, p.NTilde) {
+			return "reverify-rejected", ""
+		}
+		return "", ""
+	}
+	c.add(k)
+}
+
+func (c *runner) dlnAll(ps []Params) {
+	for _, p := range ps {
+		for dir := 0; dir < 2; dir++ {
+			h1, h2, x := DLNStatement(p, dir)
+			c.dlnCase(p, h1, h2, x, fmt.Sprintf("dir%d", dir+1), "fixture")
+		}
+		// chosen witnesses: h2 := h1^x. x = 0 and x = 1 give h2 = 1 and h2 = h1, which are not valid parameters
+		// (the verifier refuses them by design), so the alphabet starts at 2.
+		ws := []NamedInt{
+			{"2", big.NewInt(2)},
+			{"pq-1", new(big.Int).Sub(p.PQ, big1)},
+			{"pq-2", new(big.Int).Sub(p.PQ, big2)},
+			{"pq+2", new(big.Int).Add(p.PQ, big2)},
+			{"2^248", new(big.Int).Lsh(big1, 248)},
+			{"g1", Generic("dln/g1", p.PQ)},
+			{"g2", Generic("dln/g2", p.PQ)},
+		}
+		for _, w := range ws {
+			h2 := new(big.Int).Exp(p.H1, w.V, p.NTilde)
+			c.dlnCase(p, p.H1, h2, w.V, "chosen", w.Name)
+		}
+	}
+}
+
+// ---------------------------------------------------------------- Paillier key proof
+
+func (c *runner) paillierAll(ps []Params) {
+	ec := tss.S256()
+	q := ec.Params().N
+	for _, p := range ps {
+		p := p
+		ks := append(ScalarAlphabet(q, true), NamedInt{"fixture", p.Key}, NamedInt{"2^256+1", new(big.Int).Add(new(big.Int).Lsh(big1, 256), big1)})
+		pubs := []struct {
+			name string
+			pt   *crypto.ECPoint
+		}{{"fixture", p.Pub}, {"G", MulG(ec, big1)}, {"generic", MulG(ec, Generic("paillier/pub", q))}, {"ed-generic", MulG(tss.Edwards(), Generic("paillier/pub", tss.Edwards().Params().N))}}
+		for _, kk := range ks {
+			for _, pub := range pubs {
+				kk, pub := kk, pub
+				k := &kase{sys: "paillier", class: "k=" + kk.Name + "/pub=" + pub.name,
+					canon: fmt.Sprintf("paillier|set=%d|k=%s|pub=%s", p.Idx, kk.Name, pub.name),
+					rec:   map[string]interface{}{"set": p.Idx, "k": hx(kk.V), "pub": pub.name}}
+				k.run = func(k *kase) (string, string) {
+					pf := p.SK.Proof(kk.V, pub.pt)
+					ok, err := pf.Verify(p.SK.N, kk.V, pub.pt)
+					if err != nil {
+						return "verify-error", err.Error()
+					}
+					if !ok {
+						return "verify-rejected", ""
+					}
+					msg := eckeygen.NewKGRound3Message(fromID(), pf)
+					ct, err := wireRoundTrip(msg)
+					if err != nil {
+						return "wire-error", err.Error()
+					}
+					m, okc := ct.(*eckeygen.KGRound3Message)
+					if !okc {
+						return "wire-error", "content type"
+					}
+					if !m.ValidateBasic() {
+						return "message-refused", "KGRound3Message.ValidateBasic"
+					}
+					nominal := make([]int, paillier.ProofIters)
+					for i := range nominal {
+						nominal[i] = 256
+					}
+					c.noteShort("paillier", m.GetPaillierProof(), nominal)
+					pf2 := m.UnmarshalProofInts()
+					if s, d := sameInts(PaillierNames(), PaillierFlat(pf), PaillierFlat(pf2)); s != "" {
+						return s, d
+					}
+					ok, err = pf2.Verify(p.SK.N, kk.V, pub.pt)
+					if err != nil {
+						return "verify-error", err.Error()
+					}
+					if !ok {
+						return "reverify-rejected", ""
+					}
+					return "", ""
+				}
+				c.add(k)
+			}
+		}
+	}
+}
+
+// ---------------------------------------------------------------- mod
+
+func (c *runner) modAll(ps []Params) {
+	for _, p := range ps {
+		for _, sess := range Sessions() {
+			for _, swap := range []bool{false, true} {
+				p, sess, swap := p, sess, swap
+				order := "PQ"
+				if swap {
+					order = "QP"
+				}
+				label := fmt.Sprintf("c10/mod/%d/%s/%s", p.Idx, sess.Name, order)
+				k := &kase{sys: "mod", class: "factors=" + order + "/sess=" + sess.Name,
+					canon: fmt.Sprintf("mod|set=%d|%s|sess=%s", p.Idx, order, sess.Name),
+					rec:   map[string]interface{}{"set": p.Idx, "factor_order": order, "session_len": len(sess.B), "drbg": label}}
+				k.run = func(k *kase) (string, string) {
+					pf, err := BuildMod(p, sess.B, swap, label)
+					if err != nil {
+						return "prove-error", err.Error()
+					}
+					if !pf.Verify(sess.B, p.SK.N) {
+						return "verify-rejected", ""
+					}
+					bzs := pf.Bytes()
+					nominal := make([]int, len(bzs))
+					for i := range nominal {
+						nominal[i] = 256
+					}
+					nominal[modproof.Iterations+1], nominal[modproof.Iterations+2] = 11, 11
+					c.noteShort("mod", bzs[:], nominal)
+					pf2, err := modproof.NewProofFromBytes(bzs[:])
+					if err != nil {
+						return "reparse-error", err.Error()
+					}
+					if s, d := sameInts(ModNames(), ModFlat(pf), ModFlat(pf2)); s != "" {
+						return s, d
+					}
+					if !pf2.Verify(sess.B, p.SK.N) {
+						return "reverify-rejected", ""
+					}
+					return "", ""
+				}
+				c.add(k)
+			}
+		}
+	}
+}
+
+// ---------------------------------------------------------------- fac
+
+func (c *runner) facAll(ps []Params, pairs [][2]int) {
+	ec := tss.S256()
+	for _, pr := range pairs {
+		for _, sess := range Sessions() {
+			prover, verifier, sess := ps[pr[0]], ps[pr[1]], sess
+			label := fmt.Sprintf("c10/fac/%d/%d/%s", prover.Idx, verifier.Idx, sess.Name)
+			k := &kase{sys: "fac", class: "sess=" + sess.Name,
+				canon: fmt.Sprintf("fac|prover=%d|verifier=%d|sess=%s", prover.Idx, verifier.Idx, sess.Name),
+				rec:   map[string]interface{}{"prover_set": prover.Idx, "verifier_set": verifier.Idx, "session_len": len(sess.B), "drbg": label}}
+			k.run = func(k *kase) (string, string) {
+				pf, err := BuildFac(prover, verifier, ec, sess.B, label)
+				if err != nil {
+					return "prove-error", err.Error()
+				}
+				ver := func(pf *facproof.ProofFac) bool {
+					return pf.Verify(sess.B, ec, prover.SK.N, verifier.NTilde, verifier.H1, verifier.H2)
+				}
+				if !ver(pf) {
+					return "verify-rejected", ""
+				}
+				for i, v := range FacFlat(pf) {
+					if v.Sign() < 0 {
+						return "negative-component", FacNames[i] // a sign cannot travel in Bytes()
+					}
+				}
+				bzs := pf.Bytes()
+				pf2, err := facproof.NewProofFromBytes(bzs[:])
+				if err != nil {
+					return "reparse-error", err.Error()
+				}
+				if s, d := sameInts(FacNames, FacFlat(pf), FacFlat(pf2)); s != "" {
+					return s, d
+				}
+				if !ver(pf2) {
+					return "reverify-rejected", ""
+				}
+				return "", ""
+			}
+			c.add(k)
+		}
+	}
+}
+
+// ---------------------------------------------------------------- range (Alice)
+
+func (c *runner) rangeAll(ps []Params, pairs [][2]int) {
+	ec := tss.S256()
+	q := ec.Params().N
+	for _, pr := range pairs {
+		for _, m := range ScalarAlphabet(q, true) {
+			prover, verifier, m := ps[pr[0]], ps[pr[1]], m
+			label := fmt.Sprintf("c10/range/%d/%d/%s", prover.Idx, verifier.Idx, m.Name)
+			k := &kase{sys: "range", class: "m=" + m.Name,
+				canon: fmt.Sprintf("range|prover=%d|verifier=%d|m=%s", prover.Idx, verifier.Idx, m.Name),
+				rec:   map[string]interface{}{"prover_set": prover.Idx, "verifier_set": verifier.Idx, "m": hx(m.V), "drbg": label}}
+			k.run = func(k *kase) (string, string) {
+				rc, err := BuildRange(prover, verifier, ec, m.V, label)
+				if err != nil {
+					return "prove-error", err.Error()
+				}
+				ver := func(pf *mta.RangeProofAlice) bool {
+					return pf.Verify(ec, prover.PK, verifier.NTilde, verifier.H1, verifier.H2, rc.C)
+				}
+				if !ver(rc.Pf) {
+					return "verify-rejected", ""
+				}
+				bzs := rc.Pf.Bytes()
+				c.noteShort("range", bzs[:], []int{256, 512, 256, 256, 0, 0})
+				pf2, err := mta.RangeProofAliceFromBytes(bzs[:])
+				if err != nil {
+					return "reparse-error", err.Error()
+				}
+				if s, d := sameInts(RangeNames, RangeFlat(rc.Pf), RangeFlat(pf2)); s != "" {
+					return s, d
+				}
+				if !ver(pf2) {
+					return "reverify-rejected", ""
+				}
+				return "", ""
+			}
+			c.add(k)
+		}
+	}
+}
+
+// ---------------------------------------------------------------- Bob / Bob-WC
+
+func (c *runner) bobAll(ps []Params, pairs [][2]int, fullProduct map[[2]int]bool) {
+	ec := tss.S256()
+	q := ec.Params().N
+	q5 := Q5(ec)
+	ys := []NamedInt{
+		{"0", big.NewInt(0)},
+		{"1", big.NewInt(1)},
+		{"q^5-1", new(big.Int).Sub(q5, big1)},
+		{"g", Generic("bob/y", q5)},
+	}
+	sessions := Sessions()
+	for _, wc := range []bool{false, true} {
+		sys := "bob"
+		if wc {
+			sys = "bobwc"
+		}
+		xs := ScalarAlphabet(q, !wc) // x = 0 has no point X on secp256k1
+		for _, pr := range pairs {
+			type combo struct {
+				x, y NamedInt
+				s    NamedBytes
+			}
+			var combos []combo
+			if fullProduct[pr] {
+				for _, x := range xs {
+					for _, y := range ys {
+						for _, s := range sessions {
+							combos = append(combos, combo{x, y, s})
+						}
+					}
+				}
+			} else {
+				// every x, every y, every session at least once, and every (x,y) pair
+				for xi, x := range xs {
+					for yi, y := range ys {
+						combos = append(combos, combo{x, y, sessions[(xi+yi)%len(sessions)]})
+					}
+				}
+			}
+			for _, cb := range combos {
+				keyOwner, ring, cb, wc, sys := ps[pr[0]], ps[pr[1]], cb, wc, sys
+				label := fmt.Sprintf("c10/%s/%d/%d/%s/%s/%s", sys, keyOwner.Idx, ring.Idx, cb.x.Name, cb.y.Name, cb.s.Name)
+				k := &kase{sys: sys, class: "x=" + cb.x.Name + "/y=" + cb.y.Name + "/sess=" + cb.s.Name,
+					canon: fmt.Sprintf("%s|key=%d|ring=%d|x=%s|y=%s|sess=%s", sys, keyOwner.Idx, ring.Idx, cb.x.Name, cb.y.Name, cb.s.Name),
+					rec: map[string]interface{}{"paillier_set": keyOwner.Idx, "ring_set": ring.Idx, "x": hx(cb.x.V), "y": hx(cb.y.V),
+						"session_len": len(cb.s.B), "drbg": label}}
+				k.run = func(k *kase) (string, string) {
+					bc, err := BuildBob(keyOwner, ring, ec, cb.s.B, cb.x.V, cb.y.V, wc, label)
+					if err != nil {
+						return "prove-error", err.Error()
+					}
+					if !wc {
+						ver := func(pf *mta.ProofBob) bool {
+							return pf.Verify(cb.s.B, ec, keyOwner.PK, ring.NTilde, ring.H1, ring.H2, bc.C1, bc.C2)
+						}
+						if !ver(bc.Pf) {
+							return "verify-rejected", ""
+						}
+						bzs := bc.Pf.Bytes()
+						c.noteShort(sys, bzs[:], []int{256, 256, 256, 512, 256, 256})
+						pf2, err := mta.ProofBobFromBytes(bzs[:])
+						if err != nil {
+							return "reparse-error", err.Error()
+						}
+						if s, d := sameInts(BobNames, BobFlat(bc.Pf), BobFlat(pf2)); s != "" {
+							return s, d
+						}
+						if !ver(pf2) {
+							return "reverify-rejected", ""
+						}
+						return "", ""
+					}
+					ver := func(pf *mta.ProofBobWC) bool {
+						return pf.Verify(cb.s.B, ec, keyOwner.PK, ring.NTilde, ring.H1, ring.H2, bc.C1, bc.C2, bc.X)
+					}
+					if !ver(bc.PfWC) {
+						return "verify-rejected", ""
+					}
+					bzs := bc.PfWC.Bytes()
+					c.noteShort(sys, bzs[:], []int{256, 256, 256, 512, 256, 256, 0, 0, 0, 0, 32, 32})
+					pf2, err := mta.ProofBobWCFromBytes(ec, bzs[:])
+					if err != nil {
+						return "reparse-error", err.Error()
+					}
+					if s, d := sameInts(BobWCNames, BobWCFlat(bc.PfWC), BobWCFlat(pf2)); s != "" {
+						return s, d
+					}
+					if !ver(pf2) {
+						return "reverify-rejected", ""
+					}
+					// the embedded proof without check must also survive on its own wire form
+					b10 := bc.PfWC.ProofBob.Bytes()
+					pf3, err := mta.ProofBobFromBytes(b10[:])
+					if err != nil {
+						return "reparse-error", "embedded ProofBob: " + err.Error()
+					}
+					if s, d := sameInts(BobNames, BobFlat(bc.PfWC.ProofBob), BobFlat(pf3)); s != "" {
+						return s, d + " (embedded)"
+					}
+					return "", ""
+				}
+				c.add(k)
+			}
+		}
+	}
+}
+
+func Run(r *core.Run) {
+	ps := LoadParams()
+	c := &runner{r: r}
+	pairs := Pairs(r.Tier, false)
+	pairsDiag := Pairs(r.Tier, true)
+
+	c.schnorrAll()
+	c.schnorrVAll()
+	c.dlnAll(ps)
+	c.paillierAll(ps)
+	c.modAll(ps)
+	c.facAll(ps, pairsDiag)
+	c.rangeAll(ps, pairsDiag)
+	full := map[[2]int]bool{}
+	if r.Tier == "thorough" {
+		for _, pr := range pairsDiag {
+			full[pr] = true
+		}
+	} else {
+		full[pairsDiag[len(pairsDiag)-1]] = true // the protocol's own combination (same party's key and ring)
+	}
+	c.bobAll(ps, pairsDiag, full)
+	_ = pairs
+
+	workers := runtime.NumCPU()
+	core.ParallelFor(len(c.cases), workers, func(i int) { c.exec(c.cases[i]) })
+
+	r.Set("evaluations", int(atomic.LoadInt64(&c.evals)))
+	r.Set("distinct_nontrivial", r.NDistinct("cases"))
+	r.Set("proof_systems", []string{"schnorr", "schnorrv", "dln(dir1,dir2,chosen)", "paillier", "mod", "fac", "range", "bob", "bobwc"})
+	r.Set("parameter_sets", len(ps))
+	r.Set("ordered_pairs_two_sided", len(pairsDiag))
+	r.Set("rule", "one case = (proof system, curve, parameter set or ordered pair (prover,verifier), witness alphabet element(s), session alphabet element); "+
+		"every case runs the library prover on a deterministic byte stream, Verify, Bytes/Serialize -> FromBytes/Unmarshal (Schnorr, Schnorr-V and the Paillier proof also "+
+		"through the real protobuf messages), component-wise comparison and Verify again; distinct = distinct canonical case strings; every case is a true statement "+
+		"with a different input, so all are non-trivial")
+	r.Assume("the prover's internal masks come from a fixed SHA-256 counter stream per case (core.NewDRBG); only witnesses, parameter sets, curves and sessions are enumerated")
+	r.Assume("Schnorr x=0 is enumerated on the Edwards curve only (0*G is not representable as an ECPoint on secp256k1); Bob-WC skips x=0 for the same reason; dln skips x in {0,1} (h2=1, h2=h1 are refused by design)")
+	r.Assume("fac, range and Bob proofs are enumerated on secp256k1 only (the only curve the MtA / Paillier protocols are used with)")
+}
